@@ -163,9 +163,19 @@ def s_hex(x):
     return mkstr(([45] if neg else []) + [48, 120] + ds)
 
 
+def _exc_text(x):
+    """str(exception) when the exception type inherits BaseException.__str__."""
+    if isinstance(x, BaseException) and type(x).__str__ is BaseException.__str__ and len(x.args) == 1 and isinstance(x.args[0], _SYM):
+        return s_str(x.args[0])
+    return None
+
+
 def s_str(x=""):
     if isinstance(x, SStr):
         return x
+    r = _exc_text(x)
+    if r is not None:
+        return r
     if isinstance(x, SInt):
         return format_int(x, "")
     if isinstance(x, SChoice):
@@ -365,6 +375,10 @@ def s_format(v, spec, conv=-1):
         return format_int(v, spec)
     if isinstance(v, SChoice):
         return format(v.pick(), spec)
+    if spec == "":
+        r = _exc_text(v)
+        if r is not None:
+            return r
     try:
         return format(v, spec)
     except TypeError:
@@ -383,7 +397,9 @@ def s_getitem(obj, key):
                 if isinstance(k, str) and len(k) == n and core_b(key == k):
                     return obj[k]
             raise KeyError(key)
-        raise Unmodelled(f"{type(obj).__name__}[SStr]")
+        if isinstance(obj, (list, tuple, str, bytes)):
+            raise TypeError("indices must be integers")
+        return obj[key]
     if isinstance(key, SInt):
         if isinstance(obj, dict):
             groups = {}
@@ -510,7 +526,30 @@ class SymInFile:
         return False
 
 
+class SymAst:
+    """`ast` as seen by instrumented modules: literal_eval of a symbolic choice picks the option."""
+
+    def __getattr__(self, name):
+        import ast
+
+        return getattr(ast, name)
+
+    @staticmethod
+    def literal_eval(x):
+        import ast
+
+        if isinstance(x, SChoice):
+            x = x.pick()
+        if isinstance(x, SStr):
+            raise Unmodelled("ast.literal_eval(SStr)")
+        return ast.literal_eval(x)
+
+
 def s_open(path, mode="r", *a, **k):
+    if isinstance(path, SChoice):
+        path = path.pick()
+    if isinstance(path, SStr):
+        raise Unmodelled("open(SStr)")
     p = str(path)
     if ("w" in mode or "a" in mode) and p in VFS_OUT:
         f = SymOutFile(p)
